@@ -61,13 +61,15 @@ structure Inv (c : Cfg) (s : State) : Prop where
   b_defpc : ∀ t, s.defer t ≠ [] → s.ret t = Ret.body ∧ (s.pc t).bodyPhase = true
   b_defkind : ∀ j, s.deferOn j ≠ none → dropKind c (s.kind j) = DropAct.resume
   b_guard : ∀ j, dropKind c (s.kind j) = DropAct.guard → s.cancelled j = s.dropped j
-  b_none : ∀ j, dropKind c (s.kind j) = DropAct.nothing → s.lost j = s.dropped j
+  b_none : ∀ j, dropKind c (s.kind j) = DropAct.nothing → s.lost j = s.dropped j ∧ s.cancelled j = 0
+  b_lost : ∀ j, dropKind c (s.kind j) ≠ DropAct.nothing → s.lost j = 0
   b_fut : ∀ j, dropKind c (s.kind j) = DropAct.breakPromise →
             (s.armed j = true → s.cancelled j = s.dropped j) ∧ (s.armed j = false → s.cancelled j = 0)
   f_own : ∀ t j a, s.pc t = Pc.afterEnq j a → s.owner j = t ∧ s.armed j = false
   f_arm : ∀ j, hasFut (s.kind j) = true → j < s.nextJob → s.armed j = false →
             s.pc (s.owner j) = Pc.afterEnq j true ∨ s.pc (s.owner j) = Pc.afterEnq j false
   f_broken : ∀ j, dropKind c (s.kind j) = DropAct.breakPromise → s.dropped j = if s.fut j = Fut.broken then 1 else 0
+  f_brk : ∀ j, s.fut j = Fut.broken → dropKind c (s.kind j) = DropAct.breakPromise
   f_some : ∀ j, hasFut (s.kind j) = true → j < s.nextJob → s.fut j ≠ Fut.none
   f_valued : ∀ j, hasFut (s.kind j) = true → s.valued j = if s.armed j = true ∧ s.fut j = Fut.value then 1 else 0
   f_value : ∀ j, hasFut (s.kind j) = true → s.fut j = Fut.value → 0 < s.ran j
@@ -97,6 +99,7 @@ structure Inv (c : Cfg) (s : State) : Prop where
   z_det : ∀ t, s.detached t = true → s.cur t = false ∧ (s.pc t).isLoop = false
   z_cur : ∀ t, t < c.nw → s.cur t = false → s.detached t = true
   z_touch : s.touchedAfterDetach = false
+  d_exit : s.destroyed = true → s.exit = true
 
 theorem dropKind_bp_hasFut {c : Cfg} {k : Kind} (h : dropKind c k = DropAct.breakPromise) : hasFut k = true := by
   cases k <;> simp_all [dropKind, hasFut]
@@ -149,24 +152,26 @@ macro "inv_step" h:ident : tactic => `(tactic| (
   case' z_fresh => (have hf_ := ($h).z_fresh; inv_simp; try (first | exact hf_ | inv_grind | (have hg0_ := ($h).t_enq; have hg1_ := ($h).l_q; have hg2_ := ($h).l_qnd; have hg3_ := ($h).l_held; have hg4_ := ($h).l_rej; have hg5_ := ($h).l_swap; have hg6_ := ($h).l_dqnd; have hg7_ := ($h).l_dqpc; have hg8_ := ($h).l_fresh; have hg9_ := ($h).c_once; have hg10_ := ($h).r_on; have hg11_ := ($h).r_job; inv_grind) | (have hh_ := $h; cases hh_; inv_grind)))
   case' r_on => (have hf_ := ($h).r_on; inv_simp; try (first | exact hf_ | inv_grind | (have hg0_ := ($h).t_enq; have hg1_ := ($h).l_q; have hg2_ := ($h).l_qnd; have hg3_ := ($h).l_held; have hg4_ := ($h).l_rej; have hg5_ := ($h).l_swap; have hg6_ := ($h).l_dqnd; have hg7_ := ($h).l_dqpc; have hg8_ := ($h).l_fresh; have hg9_ := ($h).c_once; have hg10_ := ($h).z_fresh; have hg11_ := ($h).r_job; inv_grind) | (have hh_ := $h; cases hh_; inv_grind)))
   case' r_job => (have hf_ := ($h).r_job; inv_simp; try (first | exact hf_ | inv_grind | (have hg0_ := ($h).t_enq; have hg1_ := ($h).l_q; have hg2_ := ($h).l_qnd; have hg3_ := ($h).l_held; have hg4_ := ($h).l_rej; have hg5_ := ($h).l_swap; have hg6_ := ($h).l_dqnd; have hg7_ := ($h).l_dqpc; have hg8_ := ($h).l_fresh; have hg9_ := ($h).c_once; have hg10_ := ($h).z_fresh; have hg11_ := ($h).r_on; inv_grind) | (have hh_ := $h; cases hh_; inv_grind)))
-  case' x_exit_q => (have hf_ := ($h).x_exit_q; inv_simp; try (first | exact hf_ | inv_grind | (have hg0_ := ($h).x_rej_exit; have hg1_ := ($h).x_drop_exit; have hg2_ := ($h).b_co; have hg3_ := ($h).b_defer; have hg4_ := ($h).b_defnd; have hg5_ := ($h).b_defpc; have hg6_ := ($h).b_defkind; have hg7_ := ($h).b_guard; have hg8_ := ($h).b_none; have hg9_ := ($h).b_fut; have hg10_ := ($h).c_once; have hg11_ := ($h).l_rej; have hg12_ := ($h).l_swap; have hg13_ := ($h).z_fresh; have hg14_ := ($h).n_noexit; inv_grind) | (have hh_ := $h; cases hh_; inv_grind)))
-  case' x_rej_exit => (have hf_ := ($h).x_rej_exit; inv_simp; try (first | exact hf_ | inv_grind | (have hg0_ := ($h).x_exit_q; have hg1_ := ($h).x_drop_exit; have hg2_ := ($h).b_co; have hg3_ := ($h).b_defer; have hg4_ := ($h).b_defnd; have hg5_ := ($h).b_defpc; have hg6_ := ($h).b_defkind; have hg7_ := ($h).b_guard; have hg8_ := ($h).b_none; have hg9_ := ($h).b_fut; have hg10_ := ($h).c_once; have hg11_ := ($h).l_rej; have hg12_ := ($h).l_swap; have hg13_ := ($h).z_fresh; have hg14_ := ($h).n_noexit; inv_grind) | (have hh_ := $h; cases hh_; inv_grind)))
-  case' x_drop_exit => (have hf_ := ($h).x_drop_exit; inv_simp; try (first | exact hf_ | inv_grind | (have hg0_ := ($h).x_exit_q; have hg1_ := ($h).x_rej_exit; have hg2_ := ($h).b_co; have hg3_ := ($h).b_defer; have hg4_ := ($h).b_defnd; have hg5_ := ($h).b_defpc; have hg6_ := ($h).b_defkind; have hg7_ := ($h).b_guard; have hg8_ := ($h).b_none; have hg9_ := ($h).b_fut; have hg10_ := ($h).c_once; have hg11_ := ($h).l_rej; have hg12_ := ($h).l_swap; have hg13_ := ($h).z_fresh; have hg14_ := ($h).n_noexit; inv_grind) | (have hh_ := $h; cases hh_; inv_grind)))
-  case' b_co => (have hf_ := ($h).b_co; inv_simp; try (first | exact hf_ | inv_grind | (have hg0_ := ($h).x_exit_q; have hg1_ := ($h).x_rej_exit; have hg2_ := ($h).x_drop_exit; have hg3_ := ($h).b_defer; have hg4_ := ($h).b_defnd; have hg5_ := ($h).b_defpc; have hg6_ := ($h).b_defkind; have hg7_ := ($h).b_guard; have hg8_ := ($h).b_none; have hg9_ := ($h).b_fut; have hg10_ := ($h).c_once; have hg11_ := ($h).l_rej; have hg12_ := ($h).l_swap; have hg13_ := ($h).z_fresh; have hg14_ := ($h).n_noexit; inv_grind) | (have hh_ := $h; cases hh_; inv_grind)))
-  case' b_defer => (have hf_ := ($h).b_defer; inv_simp; try (first | exact hf_ | inv_grind | (have hg0_ := ($h).x_exit_q; have hg1_ := ($h).x_rej_exit; have hg2_ := ($h).x_drop_exit; have hg3_ := ($h).b_co; have hg4_ := ($h).b_defnd; have hg5_ := ($h).b_defpc; have hg6_ := ($h).b_defkind; have hg7_ := ($h).b_guard; have hg8_ := ($h).b_none; have hg9_ := ($h).b_fut; have hg10_ := ($h).c_once; have hg11_ := ($h).l_rej; have hg12_ := ($h).l_swap; have hg13_ := ($h).z_fresh; have hg14_ := ($h).n_noexit; inv_grind) | (have hh_ := $h; cases hh_; inv_grind)))
-  case' b_defnd => (have hf_ := ($h).b_defnd; inv_simp; try (first | exact hf_ | inv_grind | (have hg0_ := ($h).x_exit_q; have hg1_ := ($h).x_rej_exit; have hg2_ := ($h).x_drop_exit; have hg3_ := ($h).b_co; have hg4_ := ($h).b_defer; have hg5_ := ($h).b_defpc; have hg6_ := ($h).b_defkind; have hg7_ := ($h).b_guard; have hg8_ := ($h).b_none; have hg9_ := ($h).b_fut; have hg10_ := ($h).c_once; have hg11_ := ($h).l_rej; have hg12_ := ($h).l_swap; have hg13_ := ($h).z_fresh; have hg14_ := ($h).n_noexit; inv_grind) | (have hh_ := $h; cases hh_; inv_grind)))
-  case' b_defpc => (have hf_ := ($h).b_defpc; inv_simp; try (first | exact hf_ | inv_grind | (have hg0_ := ($h).x_exit_q; have hg1_ := ($h).x_rej_exit; have hg2_ := ($h).x_drop_exit; have hg3_ := ($h).b_co; have hg4_ := ($h).b_defer; have hg5_ := ($h).b_defnd; have hg6_ := ($h).b_defkind; have hg7_ := ($h).b_guard; have hg8_ := ($h).b_none; have hg9_ := ($h).b_fut; have hg10_ := ($h).c_once; have hg11_ := ($h).l_rej; have hg12_ := ($h).l_swap; have hg13_ := ($h).z_fresh; have hg14_ := ($h).n_noexit; inv_grind) | (have hh_ := $h; cases hh_; inv_grind)))
-  case' b_defkind => (have hf_ := ($h).b_defkind; inv_simp; try (first | exact hf_ | inv_grind | (have hg0_ := ($h).x_exit_q; have hg1_ := ($h).x_rej_exit; have hg2_ := ($h).x_drop_exit; have hg3_ := ($h).b_co; have hg4_ := ($h).b_defer; have hg5_ := ($h).b_defnd; have hg6_ := ($h).b_defpc; have hg7_ := ($h).b_guard; have hg8_ := ($h).b_none; have hg9_ := ($h).b_fut; have hg10_ := ($h).c_once; have hg11_ := ($h).l_rej; have hg12_ := ($h).l_swap; have hg13_ := ($h).z_fresh; have hg14_ := ($h).n_noexit; inv_grind) | (have hh_ := $h; cases hh_; inv_grind)))
-  case' b_guard => (have hf_ := ($h).b_guard; inv_simp; try (first | exact hf_ | inv_grind | (have hg0_ := ($h).x_exit_q; have hg1_ := ($h).x_rej_exit; have hg2_ := ($h).x_drop_exit; have hg3_ := ($h).b_co; have hg4_ := ($h).b_defer; have hg5_ := ($h).b_defnd; have hg6_ := ($h).b_defpc; have hg7_ := ($h).b_defkind; have hg8_ := ($h).b_none; have hg9_ := ($h).b_fut; have hg10_ := ($h).c_once; have hg11_ := ($h).l_rej; have hg12_ := ($h).l_swap; have hg13_ := ($h).z_fresh; have hg14_ := ($h).n_noexit; inv_grind) | (have hh_ := $h; cases hh_; inv_grind)))
-  case' b_none => (have hf_ := ($h).b_none; inv_simp; try (first | exact hf_ | inv_grind | (have hg0_ := ($h).x_exit_q; have hg1_ := ($h).x_rej_exit; have hg2_ := ($h).x_drop_exit; have hg3_ := ($h).b_co; have hg4_ := ($h).b_defer; have hg5_ := ($h).b_defnd; have hg6_ := ($h).b_defpc; have hg7_ := ($h).b_defkind; have hg8_ := ($h).b_guard; have hg9_ := ($h).b_fut; have hg10_ := ($h).c_once; have hg11_ := ($h).l_rej; have hg12_ := ($h).l_swap; have hg13_ := ($h).z_fresh; have hg14_ := ($h).n_noexit; inv_grind) | (have hh_ := $h; cases hh_; inv_grind)))
-  case' b_fut => (have hf_ := ($h).b_fut; inv_simp; try (first | exact hf_ | inv_grind | (have hg0_ := ($h).x_exit_q; have hg1_ := ($h).x_rej_exit; have hg2_ := ($h).x_drop_exit; have hg3_ := ($h).b_co; have hg4_ := ($h).b_defer; have hg5_ := ($h).b_defnd; have hg6_ := ($h).b_defpc; have hg7_ := ($h).b_defkind; have hg8_ := ($h).b_guard; have hg9_ := ($h).b_none; have hg10_ := ($h).c_once; have hg11_ := ($h).l_rej; have hg12_ := ($h).l_swap; have hg13_ := ($h).z_fresh; have hg14_ := ($h).n_noexit; inv_grind) | (have hh_ := $h; cases hh_; inv_grind)))
-  case' f_own => (have hf_ := ($h).f_own; inv_simp; try (first | exact hf_ | inv_grind | (have hg0_ := ($h).f_arm; have hg1_ := ($h).f_broken; have hg2_ := ($h).f_some; have hg3_ := ($h).f_valued; have hg4_ := ($h).f_value; have hg5_ := ($h).f_pending; have hg6_ := ($h).b_fut; have hg7_ := ($h).z_fresh; have hg8_ := ($h).c_once; have hg9_ := ($h).t_enq; have hg10_ := ($h).r_job; have hg11_ := ($h).l_rej; have hg12_ := ($h).l_swap; inv_grind) | (have hh_ := $h; cases hh_; inv_grind)))
-  case' f_arm => (have hf_ := ($h).f_arm; inv_simp; try (first | exact hf_ | inv_grind | (have hg0_ := ($h).f_own; have hg1_ := ($h).f_broken; have hg2_ := ($h).f_some; have hg3_ := ($h).f_valued; have hg4_ := ($h).f_value; have hg5_ := ($h).f_pending; have hg6_ := ($h).b_fut; have hg7_ := ($h).z_fresh; have hg8_ := ($h).c_once; have hg9_ := ($h).t_enq; have hg10_ := ($h).r_job; have hg11_ := ($h).l_rej; have hg12_ := ($h).l_swap; inv_grind) | (have hh_ := $h; cases hh_; inv_grind)))
-  case' f_broken => (have hf_ := ($h).f_broken; inv_simp; try (first | exact hf_ | inv_grind | (have hg0_ := ($h).f_own; have hg1_ := ($h).f_arm; have hg2_ := ($h).f_some; have hg3_ := ($h).f_valued; have hg4_ := ($h).f_value; have hg5_ := ($h).f_pending; have hg6_ := ($h).b_fut; have hg7_ := ($h).z_fresh; have hg8_ := ($h).c_once; have hg9_ := ($h).t_enq; have hg10_ := ($h).r_job; have hg11_ := ($h).l_rej; have hg12_ := ($h).l_swap; inv_grind) | (have hh_ := $h; cases hh_; inv_grind)))
-  case' f_some => (have hf_ := ($h).f_some; inv_simp; try (first | exact hf_ | inv_grind | (have hg0_ := ($h).f_own; have hg1_ := ($h).f_arm; have hg2_ := ($h).f_broken; have hg3_ := ($h).f_valued; have hg4_ := ($h).f_value; have hg5_ := ($h).f_pending; have hg6_ := ($h).b_fut; have hg7_ := ($h).z_fresh; have hg8_ := ($h).c_once; have hg9_ := ($h).t_enq; have hg10_ := ($h).r_job; have hg11_ := ($h).l_rej; have hg12_ := ($h).l_swap; inv_grind) | (have hh_ := $h; cases hh_; inv_grind)))
-  case' f_valued => (have hf_ := ($h).f_valued; inv_simp; try (first | exact hf_ | inv_grind | (have hg0_ := ($h).f_own; have hg1_ := ($h).f_arm; have hg2_ := ($h).f_broken; have hg3_ := ($h).f_some; have hg4_ := ($h).f_value; have hg5_ := ($h).f_pending; have hg6_ := ($h).b_fut; have hg7_ := ($h).z_fresh; have hg8_ := ($h).c_once; have hg9_ := ($h).t_enq; have hg10_ := ($h).r_job; have hg11_ := ($h).l_rej; have hg12_ := ($h).l_swap; inv_grind) | (have hh_ := $h; cases hh_; inv_grind)))
-  case' f_value => (have hf_ := ($h).f_value; inv_simp; try (first | exact hf_ | inv_grind | (have hg0_ := ($h).f_own; have hg1_ := ($h).f_arm; have hg2_ := ($h).f_broken; have hg3_ := ($h).f_some; have hg4_ := ($h).f_valued; have hg5_ := ($h).f_pending; have hg6_ := ($h).b_fut; have hg7_ := ($h).z_fresh; have hg8_ := ($h).c_once; have hg9_ := ($h).t_enq; have hg10_ := ($h).r_job; have hg11_ := ($h).l_rej; have hg12_ := ($h).l_swap; inv_grind) | (have hh_ := $h; cases hh_; inv_grind)))
-  case' f_pending => (have hf_ := ($h).f_pending; inv_simp; try (first | exact hf_ | inv_grind | (have hg0_ := ($h).f_own; have hg1_ := ($h).f_arm; have hg2_ := ($h).f_broken; have hg3_ := ($h).f_some; have hg4_ := ($h).f_valued; have hg5_ := ($h).f_value; have hg6_ := ($h).b_fut; have hg7_ := ($h).z_fresh; have hg8_ := ($h).c_once; have hg9_ := ($h).t_enq; have hg10_ := ($h).r_job; have hg11_ := ($h).l_rej; have hg12_ := ($h).l_swap; inv_grind) | (have hh_ := $h; cases hh_; inv_grind)))
+  case' x_exit_q => (have hf_ := ($h).x_exit_q; inv_simp; try (first | exact hf_ | inv_grind | (have hg0_ := ($h).x_rej_exit; have hg1_ := ($h).x_drop_exit; have hg2_ := ($h).b_co; have hg3_ := ($h).b_defer; have hg4_ := ($h).b_defnd; have hg5_ := ($h).b_defpc; have hg6_ := ($h).b_defkind; have hg7_ := ($h).b_guard; have hg8_ := ($h).b_none; have hg9_ := ($h).b_lost; have hg10_ := ($h).b_fut; have hg11_ := ($h).f_brk; have hg12_ := ($h).c_once; have hg13_ := ($h).l_rej; have hg14_ := ($h).l_swap; have hg15_ := ($h).z_fresh; have hg16_ := ($h).n_noexit; inv_grind) | (have hh_ := $h; cases hh_; inv_grind)))
+  case' x_rej_exit => (have hf_ := ($h).x_rej_exit; inv_simp; try (first | exact hf_ | inv_grind | (have hg0_ := ($h).x_exit_q; have hg1_ := ($h).x_drop_exit; have hg2_ := ($h).b_co; have hg3_ := ($h).b_defer; have hg4_ := ($h).b_defnd; have hg5_ := ($h).b_defpc; have hg6_ := ($h).b_defkind; have hg7_ := ($h).b_guard; have hg8_ := ($h).b_none; have hg9_ := ($h).b_lost; have hg10_ := ($h).b_fut; have hg11_ := ($h).f_brk; have hg12_ := ($h).c_once; have hg13_ := ($h).l_rej; have hg14_ := ($h).l_swap; have hg15_ := ($h).z_fresh; have hg16_ := ($h).n_noexit; inv_grind) | (have hh_ := $h; cases hh_; inv_grind)))
+  case' x_drop_exit => (have hf_ := ($h).x_drop_exit; inv_simp; try (first | exact hf_ | inv_grind | (have hg0_ := ($h).x_exit_q; have hg1_ := ($h).x_rej_exit; have hg2_ := ($h).b_co; have hg3_ := ($h).b_defer; have hg4_ := ($h).b_defnd; have hg5_ := ($h).b_defpc; have hg6_ := ($h).b_defkind; have hg7_ := ($h).b_guard; have hg8_ := ($h).b_none; have hg9_ := ($h).b_lost; have hg10_ := ($h).b_fut; have hg11_ := ($h).f_brk; have hg12_ := ($h).c_once; have hg13_ := ($h).l_rej; have hg14_ := ($h).l_swap; have hg15_ := ($h).z_fresh; have hg16_ := ($h).n_noexit; inv_grind) | (have hh_ := $h; cases hh_; inv_grind)))
+  case' b_co => (have hf_ := ($h).b_co; inv_simp; try (first | exact hf_ | inv_grind | (have hg0_ := ($h).x_exit_q; have hg1_ := ($h).x_rej_exit; have hg2_ := ($h).x_drop_exit; have hg3_ := ($h).b_defer; have hg4_ := ($h).b_defnd; have hg5_ := ($h).b_defpc; have hg6_ := ($h).b_defkind; have hg7_ := ($h).b_guard; have hg8_ := ($h).b_none; have hg9_ := ($h).b_lost; have hg10_ := ($h).b_fut; have hg11_ := ($h).f_brk; have hg12_ := ($h).c_once; have hg13_ := ($h).l_rej; have hg14_ := ($h).l_swap; have hg15_ := ($h).z_fresh; have hg16_ := ($h).n_noexit; inv_grind) | (have hh_ := $h; cases hh_; inv_grind)))
+  case' b_defer => (have hf_ := ($h).b_defer; inv_simp; try (first | exact hf_ | inv_grind | (have hg0_ := ($h).x_exit_q; have hg1_ := ($h).x_rej_exit; have hg2_ := ($h).x_drop_exit; have hg3_ := ($h).b_co; have hg4_ := ($h).b_defnd; have hg5_ := ($h).b_defpc; have hg6_ := ($h).b_defkind; have hg7_ := ($h).b_guard; have hg8_ := ($h).b_none; have hg9_ := ($h).b_lost; have hg10_ := ($h).b_fut; have hg11_ := ($h).f_brk; have hg12_ := ($h).c_once; have hg13_ := ($h).l_rej; have hg14_ := ($h).l_swap; have hg15_ := ($h).z_fresh; have hg16_ := ($h).n_noexit; inv_grind) | (have hh_ := $h; cases hh_; inv_grind)))
+  case' b_defnd => (have hf_ := ($h).b_defnd; inv_simp; try (first | exact hf_ | inv_grind | (have hg0_ := ($h).x_exit_q; have hg1_ := ($h).x_rej_exit; have hg2_ := ($h).x_drop_exit; have hg3_ := ($h).b_co; have hg4_ := ($h).b_defer; have hg5_ := ($h).b_defpc; have hg6_ := ($h).b_defkind; have hg7_ := ($h).b_guard; have hg8_ := ($h).b_none; have hg9_ := ($h).b_lost; have hg10_ := ($h).b_fut; have hg11_ := ($h).f_brk; have hg12_ := ($h).c_once; have hg13_ := ($h).l_rej; have hg14_ := ($h).l_swap; have hg15_ := ($h).z_fresh; have hg16_ := ($h).n_noexit; inv_grind) | (have hh_ := $h; cases hh_; inv_grind)))
+  case' b_defpc => (have hf_ := ($h).b_defpc; inv_simp; try (first | exact hf_ | inv_grind | (have hg0_ := ($h).x_exit_q; have hg1_ := ($h).x_rej_exit; have hg2_ := ($h).x_drop_exit; have hg3_ := ($h).b_co; have hg4_ := ($h).b_defer; have hg5_ := ($h).b_defnd; have hg6_ := ($h).b_defkind; have hg7_ := ($h).b_guard; have hg8_ := ($h).b_none; have hg9_ := ($h).b_lost; have hg10_ := ($h).b_fut; have hg11_ := ($h).f_brk; have hg12_ := ($h).c_once; have hg13_ := ($h).l_rej; have hg14_ := ($h).l_swap; have hg15_ := ($h).z_fresh; have hg16_ := ($h).n_noexit; inv_grind) | (have hh_ := $h; cases hh_; inv_grind)))
+  case' b_defkind => (have hf_ := ($h).b_defkind; inv_simp; try (first | exact hf_ | inv_grind | (have hg0_ := ($h).x_exit_q; have hg1_ := ($h).x_rej_exit; have hg2_ := ($h).x_drop_exit; have hg3_ := ($h).b_co; have hg4_ := ($h).b_defer; have hg5_ := ($h).b_defnd; have hg6_ := ($h).b_defpc; have hg7_ := ($h).b_guard; have hg8_ := ($h).b_none; have hg9_ := ($h).b_lost; have hg10_ := ($h).b_fut; have hg11_ := ($h).f_brk; have hg12_ := ($h).c_once; have hg13_ := ($h).l_rej; have hg14_ := ($h).l_swap; have hg15_ := ($h).z_fresh; have hg16_ := ($h).n_noexit; inv_grind) | (have hh_ := $h; cases hh_; inv_grind)))
+  case' b_guard => (have hf_ := ($h).b_guard; inv_simp; try (first | exact hf_ | inv_grind | (have hg0_ := ($h).x_exit_q; have hg1_ := ($h).x_rej_exit; have hg2_ := ($h).x_drop_exit; have hg3_ := ($h).b_co; have hg4_ := ($h).b_defer; have hg5_ := ($h).b_defnd; have hg6_ := ($h).b_defpc; have hg7_ := ($h).b_defkind; have hg8_ := ($h).b_none; have hg9_ := ($h).b_lost; have hg10_ := ($h).b_fut; have hg11_ := ($h).f_brk; have hg12_ := ($h).c_once; have hg13_ := ($h).l_rej; have hg14_ := ($h).l_swap; have hg15_ := ($h).z_fresh; have hg16_ := ($h).n_noexit; inv_grind) | (have hh_ := $h; cases hh_; inv_grind)))
+  case' b_none => (have hf_ := ($h).b_none; inv_simp; try (first | exact hf_ | inv_grind | (have hg0_ := ($h).x_exit_q; have hg1_ := ($h).x_rej_exit; have hg2_ := ($h).x_drop_exit; have hg3_ := ($h).b_co; have hg4_ := ($h).b_defer; have hg5_ := ($h).b_defnd; have hg6_ := ($h).b_defpc; have hg7_ := ($h).b_defkind; have hg8_ := ($h).b_guard; have hg9_ := ($h).b_lost; have hg10_ := ($h).b_fut; have hg11_ := ($h).f_brk; have hg12_ := ($h).c_once; have hg13_ := ($h).l_rej; have hg14_ := ($h).l_swap; have hg15_ := ($h).z_fresh; have hg16_ := ($h).n_noexit; inv_grind) | (have hh_ := $h; cases hh_; inv_grind)))
+  case' b_lost => (have hf_ := ($h).b_lost; inv_simp; try (first | exact hf_ | inv_grind | (have hg0_ := ($h).x_exit_q; have hg1_ := ($h).x_rej_exit; have hg2_ := ($h).x_drop_exit; have hg3_ := ($h).b_co; have hg4_ := ($h).b_defer; have hg5_ := ($h).b_defnd; have hg6_ := ($h).b_defpc; have hg7_ := ($h).b_defkind; have hg8_ := ($h).b_guard; have hg9_ := ($h).b_none; have hg10_ := ($h).b_fut; have hg11_ := ($h).f_brk; have hg12_ := ($h).c_once; have hg13_ := ($h).l_rej; have hg14_ := ($h).l_swap; have hg15_ := ($h).z_fresh; have hg16_ := ($h).n_noexit; inv_grind) | (have hh_ := $h; cases hh_; inv_grind)))
+  case' b_fut => (have hf_ := ($h).b_fut; inv_simp; try (first | exact hf_ | inv_grind | (have hg0_ := ($h).x_exit_q; have hg1_ := ($h).x_rej_exit; have hg2_ := ($h).x_drop_exit; have hg3_ := ($h).b_co; have hg4_ := ($h).b_defer; have hg5_ := ($h).b_defnd; have hg6_ := ($h).b_defpc; have hg7_ := ($h).b_defkind; have hg8_ := ($h).b_guard; have hg9_ := ($h).b_none; have hg10_ := ($h).b_lost; have hg11_ := ($h).f_brk; have hg12_ := ($h).c_once; have hg13_ := ($h).l_rej; have hg14_ := ($h).l_swap; have hg15_ := ($h).z_fresh; have hg16_ := ($h).n_noexit; inv_grind) | (have hh_ := $h; cases hh_; inv_grind)))
+  case' f_own => (have hf_ := ($h).f_own; inv_simp; try (first | exact hf_ | inv_grind | (have hg0_ := ($h).f_arm; have hg1_ := ($h).f_broken; have hg2_ := ($h).f_brk; have hg3_ := ($h).f_some; have hg4_ := ($h).f_valued; have hg5_ := ($h).f_value; have hg6_ := ($h).f_pending; have hg7_ := ($h).b_fut; have hg8_ := ($h).z_fresh; have hg9_ := ($h).c_once; have hg10_ := ($h).t_enq; have hg11_ := ($h).r_job; have hg12_ := ($h).l_rej; have hg13_ := ($h).l_swap; inv_grind) | (have hh_ := $h; cases hh_; inv_grind)))
+  case' f_arm => (have hf_ := ($h).f_arm; inv_simp; try (first | exact hf_ | inv_grind | (have hg0_ := ($h).f_own; have hg1_ := ($h).f_broken; have hg2_ := ($h).f_brk; have hg3_ := ($h).f_some; have hg4_ := ($h).f_valued; have hg5_ := ($h).f_value; have hg6_ := ($h).f_pending; have hg7_ := ($h).b_fut; have hg8_ := ($h).z_fresh; have hg9_ := ($h).c_once; have hg10_ := ($h).t_enq; have hg11_ := ($h).r_job; have hg12_ := ($h).l_rej; have hg13_ := ($h).l_swap; inv_grind) | (have hh_ := $h; cases hh_; inv_grind)))
+  case' f_broken => (have hf_ := ($h).f_broken; inv_simp; try (first | exact hf_ | inv_grind | (have hg0_ := ($h).f_own; have hg1_ := ($h).f_arm; have hg2_ := ($h).f_brk; have hg3_ := ($h).f_some; have hg4_ := ($h).f_valued; have hg5_ := ($h).f_value; have hg6_ := ($h).f_pending; have hg7_ := ($h).b_fut; have hg8_ := ($h).z_fresh; have hg9_ := ($h).c_once; have hg10_ := ($h).t_enq; have hg11_ := ($h).r_job; have hg12_ := ($h).l_rej; have hg13_ := ($h).l_swap; inv_grind) | (have hh_ := $h; cases hh_; inv_grind)))
+  case' f_brk => (have hf_ := ($h).f_brk; inv_simp; try (first | exact hf_ | inv_grind | (have hg0_ := ($h).f_own; have hg1_ := ($h).f_arm; have hg2_ := ($h).f_broken; have hg3_ := ($h).f_some; have hg4_ := ($h).f_valued; have hg5_ := ($h).f_value; have hg6_ := ($h).f_pending; have hg7_ := ($h).b_fut; have hg8_ := ($h).z_fresh; have hg9_ := ($h).c_once; have hg10_ := ($h).t_enq; have hg11_ := ($h).r_job; have hg12_ := ($h).l_rej; have hg13_ := ($h).l_swap; inv_grind) | (have hh_ := $h; cases hh_; inv_grind)))
+  case' f_some => (have hf_ := ($h).f_some; inv_simp; try (first | exact hf_ | inv_grind | (have hg0_ := ($h).f_own; have hg1_ := ($h).f_arm; have hg2_ := ($h).f_broken; have hg3_ := ($h).f_brk; have hg4_ := ($h).f_valued; have hg5_ := ($h).f_value; have hg6_ := ($h).f_pending; have hg7_ := ($h).b_fut; have hg8_ := ($h).z_fresh; have hg9_ := ($h).c_once; have hg10_ := ($h).t_enq; have hg11_ := ($h).r_job; have hg12_ := ($h).l_rej; have hg13_ := ($h).l_swap; inv_grind) | (have hh_ := $h; cases hh_; inv_grind)))
+  case' f_valued => (have hf_ := ($h).f_valued; inv_simp; try (first | exact hf_ | inv_grind | (have hg0_ := ($h).f_own; have hg1_ := ($h).f_arm; have hg2_ := ($h).f_broken; have hg3_ := ($h).f_brk; have hg4_ := ($h).f_some; have hg5_ := ($h).f_value; have hg6_ := ($h).f_pending; have hg7_ := ($h).b_fut; have hg8_ := ($h).z_fresh; have hg9_ := ($h).c_once; have hg10_ := ($h).t_enq; have hg11_ := ($h).r_job; have hg12_ := ($h).l_rej; have hg13_ := ($h).l_swap; inv_grind) | (have hh_ := $h; cases hh_; inv_grind)))
+  case' f_value => (have hf_ := ($h).f_value; inv_simp; try (first | exact hf_ | inv_grind | (have hg0_ := ($h).f_own; have hg1_ := ($h).f_arm; have hg2_ := ($h).f_broken; have hg3_ := ($h).f_brk; have hg4_ := ($h).f_some; have hg5_ := ($h).f_valued; have hg6_ := ($h).f_pending; have hg7_ := ($h).b_fut; have hg8_ := ($h).z_fresh; have hg9_ := ($h).c_once; have hg10_ := ($h).t_enq; have hg11_ := ($h).r_job; have hg12_ := ($h).l_rej; have hg13_ := ($h).l_swap; inv_grind) | (have hh_ := $h; cases hh_; inv_grind)))
+  case' f_pending => (have hf_ := ($h).f_pending; inv_simp; try (first | exact hf_ | inv_grind | (have hg0_ := ($h).f_own; have hg1_ := ($h).f_arm; have hg2_ := ($h).f_broken; have hg3_ := ($h).f_brk; have hg4_ := ($h).f_some; have hg5_ := ($h).f_valued; have hg6_ := ($h).f_value; have hg7_ := ($h).b_fut; have hg8_ := ($h).z_fresh; have hg9_ := ($h).c_once; have hg10_ := ($h).t_enq; have hg11_ := ($h).r_job; have hg12_ := ($h).l_rej; have hg13_ := ($h).l_swap; inv_grind) | (have hh_ := $h; cases hh_; inv_grind)))
   case' s_exit_wq => (have hf_ := ($h).s_exit_wq; inv_simp; try (first | exact hf_ | inv_grind | (have hg0_ := ($h).s_wqnd; have hg1_ := ($h).s_wq_pc; have hg2_ := ($h).s_woken; have hg3_ := ($h).s_cv; have hg4_ := ($h).n_wake; have hg5_ := ($h).n_noexit; have hg6_ := ($h).t_worker; have hg7_ := ($h).wf_nw; inv_grind) | (have hh_ := $h; cases hh_; inv_grind)))
   case' s_wqnd => (have hf_ := ($h).s_wqnd; inv_simp; try (first | exact hf_ | inv_grind | (have hg0_ := ($h).s_exit_wq; have hg1_ := ($h).s_wq_pc; have hg2_ := ($h).s_woken; have hg3_ := ($h).s_cv; have hg4_ := ($h).n_wake; have hg5_ := ($h).n_noexit; have hg6_ := ($h).t_worker; have hg7_ := ($h).wf_nw; inv_grind) | (have hh_ := $h; cases hh_; inv_grind)))
   case' s_wq_pc => (have hf_ := ($h).s_wq_pc; inv_simp; try (first | exact hf_ | inv_grind | (have hg0_ := ($h).s_exit_wq; have hg1_ := ($h).s_wqnd; have hg2_ := ($h).s_woken; have hg3_ := ($h).s_cv; have hg4_ := ($h).n_wake; have hg5_ := ($h).n_noexit; have hg6_ := ($h).t_worker; have hg7_ := ($h).wf_nw; inv_grind) | (have hh_ := $h; cases hh_; inv_grind)))
@@ -174,19 +179,20 @@ macro "inv_step" h:ident : tactic => `(tactic| (
   case' s_cv => (have hf_ := ($h).s_cv; inv_simp; try (first | exact hf_ | inv_grind | (have hg0_ := ($h).s_exit_wq; have hg1_ := ($h).s_wqnd; have hg2_ := ($h).s_wq_pc; have hg3_ := ($h).s_woken; have hg4_ := ($h).n_wake; have hg5_ := ($h).n_noexit; have hg6_ := ($h).t_worker; have hg7_ := ($h).wf_nw; inv_grind) | (have hh_ := $h; cases hh_; inv_grind)))
   case' n_wake => (have hf_ := ($h).n_wake; inv_simp; try (first | exact hf_ | inv_grind | (have hg0_ := ($h).s_exit_wq; have hg1_ := ($h).s_wqnd; have hg2_ := ($h).s_wq_pc; have hg3_ := ($h).s_woken; have hg4_ := ($h).s_cv; have hg5_ := ($h).n_noexit; have hg6_ := ($h).t_worker; have hg7_ := ($h).wf_nw; inv_grind) | (have hh_ := $h; cases hh_; inv_grind)))
   case' n_noexit => (have hf_ := ($h).n_noexit; inv_simp; try (first | exact hf_ | inv_grind | (have hg0_ := ($h).s_exit_wq; have hg1_ := ($h).s_wqnd; have hg2_ := ($h).s_wq_pc; have hg3_ := ($h).s_woken; have hg4_ := ($h).s_cv; have hg5_ := ($h).n_wake; have hg6_ := ($h).t_worker; have hg7_ := ($h).wf_nw; inv_grind) | (have hh_ := $h; cases hh_; inv_grind)))
-  case' s_tmp_pc => (have hf_ := ($h).s_tmp_pc; inv_simp; try (first | exact hf_ | inv_grind | (have hg0_ := ($h).n_noexit; have hg1_ := ($h).s_tmp_uniq; have hg2_ := ($h).s_thr_tmp; have hg3_ := ($h).s_jb_head; have hg4_ := ($h).s_tmp_w; have hg5_ := ($h).s_nostuck; have hg6_ := ($h).j_all; have hg7_ := ($h).j_thr; have hg8_ := ($h).j_thr0; have hg9_ := ($h).j_thrw; have hg10_ := ($h).z_det; have hg11_ := ($h).z_cur; have hg12_ := ($h).z_touch; have hg13_ := ($h).t_worker; have hg14_ := ($h).t_ret; have hg15_ := ($h).t_script; have hg16_ := ($h).wf_nt; inv_grind) | (have hh_ := $h; cases hh_; inv_grind)))
-  case' s_tmp_uniq => (have hf_ := ($h).s_tmp_uniq; inv_simp; try (first | exact hf_ | inv_grind | (have hg0_ := ($h).n_noexit; have hg1_ := ($h).s_tmp_pc; have hg2_ := ($h).s_thr_tmp; have hg3_ := ($h).s_jb_head; have hg4_ := ($h).s_tmp_w; have hg5_ := ($h).s_nostuck; have hg6_ := ($h).j_all; have hg7_ := ($h).j_thr; have hg8_ := ($h).j_thr0; have hg9_ := ($h).j_thrw; have hg10_ := ($h).z_det; have hg11_ := ($h).z_cur; have hg12_ := ($h).z_touch; have hg13_ := ($h).t_worker; have hg14_ := ($h).t_ret; have hg15_ := ($h).t_script; have hg16_ := ($h).wf_nt; inv_grind) | (have hh_ := $h; cases hh_; inv_grind)))
-  case' s_thr_tmp => (have hf_ := ($h).s_thr_tmp; inv_simp; try (first | exact hf_ | inv_grind | (have hg0_ := ($h).n_noexit; have hg1_ := ($h).s_tmp_pc; have hg2_ := ($h).s_tmp_uniq; have hg3_ := ($h).s_jb_head; have hg4_ := ($h).s_tmp_w; have hg5_ := ($h).s_nostuck; have hg6_ := ($h).j_all; have hg7_ := ($h).j_thr; have hg8_ := ($h).j_thr0; have hg9_ := ($h).j_thrw; have hg10_ := ($h).z_det; have hg11_ := ($h).z_cur; have hg12_ := ($h).z_touch; have hg13_ := ($h).t_worker; have hg14_ := ($h).t_ret; have hg15_ := ($h).t_script; have hg16_ := ($h).wf_nt; inv_grind) | (have hh_ := $h; cases hh_; inv_grind)))
-  case' s_jb_head => (have hf_ := ($h).s_jb_head; inv_simp; try (first | exact hf_ | inv_grind | (have hg0_ := ($h).n_noexit; have hg1_ := ($h).s_tmp_pc; have hg2_ := ($h).s_tmp_uniq; have hg3_ := ($h).s_thr_tmp; have hg4_ := ($h).s_tmp_w; have hg5_ := ($h).s_nostuck; have hg6_ := ($h).j_all; have hg7_ := ($h).j_thr; have hg8_ := ($h).j_thr0; have hg9_ := ($h).j_thrw; have hg10_ := ($h).z_det; have hg11_ := ($h).z_cur; have hg12_ := ($h).z_touch; have hg13_ := ($h).t_worker; have hg14_ := ($h).t_ret; have hg15_ := ($h).t_script; have hg16_ := ($h).wf_nt; inv_grind) | (have hh_ := $h; cases hh_; inv_grind)))
-  case' s_tmp_w => (have hf_ := ($h).s_tmp_w; inv_simp; try (first | exact hf_ | inv_grind | (have hg0_ := ($h).n_noexit; have hg1_ := ($h).s_tmp_pc; have hg2_ := ($h).s_tmp_uniq; have hg3_ := ($h).s_thr_tmp; have hg4_ := ($h).s_jb_head; have hg5_ := ($h).s_nostuck; have hg6_ := ($h).j_all; have hg7_ := ($h).j_thr; have hg8_ := ($h).j_thr0; have hg9_ := ($h).j_thrw; have hg10_ := ($h).z_det; have hg11_ := ($h).z_cur; have hg12_ := ($h).z_touch; have hg13_ := ($h).t_worker; have hg14_ := ($h).t_ret; have hg15_ := ($h).t_script; have hg16_ := ($h).wf_nt; inv_grind) | (have hh_ := $h; cases hh_; inv_grind)))
-  case' s_nostuck => (have hf_ := ($h).s_nostuck; inv_simp; try (first | exact hf_ | inv_grind | (have hg0_ := ($h).n_noexit; have hg1_ := ($h).s_tmp_pc; have hg2_ := ($h).s_tmp_uniq; have hg3_ := ($h).s_thr_tmp; have hg4_ := ($h).s_jb_head; have hg5_ := ($h).s_tmp_w; have hg6_ := ($h).j_all; have hg7_ := ($h).j_thr; have hg8_ := ($h).j_thr0; have hg9_ := ($h).j_thrw; have hg10_ := ($h).z_det; have hg11_ := ($h).z_cur; have hg12_ := ($h).z_touch; have hg13_ := ($h).t_worker; have hg14_ := ($h).t_ret; have hg15_ := ($h).t_script; have hg16_ := ($h).wf_nt; inv_grind) | (have hh_ := $h; cases hh_; inv_grind)))
-  case' j_all => (have hf_ := ($h).j_all; inv_simp; try (first | exact hf_ | inv_grind | (have hg0_ := ($h).n_noexit; have hg1_ := ($h).s_tmp_pc; have hg2_ := ($h).s_tmp_uniq; have hg3_ := ($h).s_thr_tmp; have hg4_ := ($h).s_jb_head; have hg5_ := ($h).s_tmp_w; have hg6_ := ($h).s_nostuck; have hg7_ := ($h).j_thr; have hg8_ := ($h).j_thr0; have hg9_ := ($h).j_thrw; have hg10_ := ($h).z_det; have hg11_ := ($h).z_cur; have hg12_ := ($h).z_touch; have hg13_ := ($h).t_worker; have hg14_ := ($h).t_ret; have hg15_ := ($h).t_script; have hg16_ := ($h).wf_nt; inv_grind) | (have hh_ := $h; cases hh_; inv_grind)))
-  case' j_thr => (have hf_ := ($h).j_thr; inv_simp; try (first | exact hf_ | inv_grind | (have hg0_ := ($h).n_noexit; have hg1_ := ($h).s_tmp_pc; have hg2_ := ($h).s_tmp_uniq; have hg3_ := ($h).s_thr_tmp; have hg4_ := ($h).s_jb_head; have hg5_ := ($h).s_tmp_w; have hg6_ := ($h).s_nostuck; have hg7_ := ($h).j_all; have hg8_ := ($h).j_thr0; have hg9_ := ($h).j_thrw; have hg10_ := ($h).z_det; have hg11_ := ($h).z_cur; have hg12_ := ($h).z_touch; have hg13_ := ($h).t_worker; have hg14_ := ($h).t_ret; have hg15_ := ($h).t_script; have hg16_ := ($h).wf_nt; inv_grind) | (have hh_ := $h; cases hh_; inv_grind)))
-  case' j_thr0 => (have hf_ := ($h).j_thr0; inv_simp; try (first | exact hf_ | inv_grind | (have hg0_ := ($h).n_noexit; have hg1_ := ($h).s_tmp_pc; have hg2_ := ($h).s_tmp_uniq; have hg3_ := ($h).s_thr_tmp; have hg4_ := ($h).s_jb_head; have hg5_ := ($h).s_tmp_w; have hg6_ := ($h).s_nostuck; have hg7_ := ($h).j_all; have hg8_ := ($h).j_thr; have hg9_ := ($h).j_thrw; have hg10_ := ($h).z_det; have hg11_ := ($h).z_cur; have hg12_ := ($h).z_touch; have hg13_ := ($h).t_worker; have hg14_ := ($h).t_ret; have hg15_ := ($h).t_script; have hg16_ := ($h).wf_nt; inv_grind) | (have hh_ := $h; cases hh_; inv_grind)))
-  case' j_thrw => (have hf_ := ($h).j_thrw; inv_simp; try (first | exact hf_ | inv_grind | (have hg0_ := ($h).n_noexit; have hg1_ := ($h).s_tmp_pc; have hg2_ := ($h).s_tmp_uniq; have hg3_ := ($h).s_thr_tmp; have hg4_ := ($h).s_jb_head; have hg5_ := ($h).s_tmp_w; have hg6_ := ($h).s_nostuck; have hg7_ := ($h).j_all; have hg8_ := ($h).j_thr; have hg9_ := ($h).j_thr0; have hg10_ := ($h).z_det; have hg11_ := ($h).z_cur; have hg12_ := ($h).z_touch; have hg13_ := ($h).t_worker; have hg14_ := ($h).t_ret; have hg15_ := ($h).t_script; have hg16_ := ($h).wf_nt; inv_grind) | (have hh_ := $h; cases hh_; inv_grind)))
-  case' z_det => (have hf_ := ($h).z_det; inv_simp; try (first | exact hf_ | inv_grind | (have hg0_ := ($h).n_noexit; have hg1_ := ($h).s_tmp_pc; have hg2_ := ($h).s_tmp_uniq; have hg3_ := ($h).s_thr_tmp; have hg4_ := ($h).s_jb_head; have hg5_ := ($h).s_tmp_w; have hg6_ := ($h).s_nostuck; have hg7_ := ($h).j_all; have hg8_ := ($h).j_thr; have hg9_ := ($h).j_thr0; have hg10_ := ($h).j_thrw; have hg11_ := ($h).z_cur; have hg12_ := ($h).z_touch; have hg13_ := ($h).t_worker; have hg14_ := ($h).t_ret; have hg15_ := ($h).t_script; have hg16_ := ($h).wf_nt; inv_grind) | (have hh_ := $h; cases hh_; inv_grind)))
-  case' z_cur => (have hf_ := ($h).z_cur; inv_simp; try (first | exact hf_ | inv_grind | (have hg0_ := ($h).n_noexit; have hg1_ := ($h).s_tmp_pc; have hg2_ := ($h).s_tmp_uniq; have hg3_ := ($h).s_thr_tmp; have hg4_ := ($h).s_jb_head; have hg5_ := ($h).s_tmp_w; have hg6_ := ($h).s_nostuck; have hg7_ := ($h).j_all; have hg8_ := ($h).j_thr; have hg9_ := ($h).j_thr0; have hg10_ := ($h).j_thrw; have hg11_ := ($h).z_det; have hg12_ := ($h).z_touch; have hg13_ := ($h).t_worker; have hg14_ := ($h).t_ret; have hg15_ := ($h).t_script; have hg16_ := ($h).wf_nt; inv_grind) | (have hh_ := $h; cases hh_; inv_grind)))
-  case' z_touch => (have hf_ := ($h).z_touch; inv_simp; try (first | exact hf_ | inv_grind | (have hg0_ := ($h).n_noexit; have hg1_ := ($h).s_tmp_pc; have hg2_ := ($h).s_tmp_uniq; have hg3_ := ($h).s_thr_tmp; have hg4_ := ($h).s_jb_head; have hg5_ := ($h).s_tmp_w; have hg6_ := ($h).s_nostuck; have hg7_ := ($h).j_all; have hg8_ := ($h).j_thr; have hg9_ := ($h).j_thr0; have hg10_ := ($h).j_thrw; have hg11_ := ($h).z_det; have hg12_ := ($h).z_cur; have hg13_ := ($h).t_worker; have hg14_ := ($h).t_ret; have hg15_ := ($h).t_script; have hg16_ := ($h).wf_nt; inv_grind) | (have hh_ := $h; cases hh_; inv_grind)))
+  case' s_tmp_pc => (have hf_ := ($h).s_tmp_pc; inv_simp; try (first | exact hf_ | inv_grind | (have hg0_ := ($h).n_noexit; have hg1_ := ($h).s_tmp_uniq; have hg2_ := ($h).s_thr_tmp; have hg3_ := ($h).s_jb_head; have hg4_ := ($h).s_tmp_w; have hg5_ := ($h).s_nostuck; have hg6_ := ($h).j_all; have hg7_ := ($h).j_thr; have hg8_ := ($h).j_thr0; have hg9_ := ($h).j_thrw; have hg10_ := ($h).z_det; have hg11_ := ($h).z_cur; have hg12_ := ($h).z_touch; have hg13_ := ($h).d_exit; have hg14_ := ($h).t_worker; have hg15_ := ($h).t_ret; have hg16_ := ($h).t_script; have hg17_ := ($h).wf_nt; inv_grind) | (have hh_ := $h; cases hh_; inv_grind)))
+  case' s_tmp_uniq => (have hf_ := ($h).s_tmp_uniq; inv_simp; try (first | exact hf_ | inv_grind | (have hg0_ := ($h).n_noexit; have hg1_ := ($h).s_tmp_pc; have hg2_ := ($h).s_thr_tmp; have hg3_ := ($h).s_jb_head; have hg4_ := ($h).s_tmp_w; have hg5_ := ($h).s_nostuck; have hg6_ := ($h).j_all; have hg7_ := ($h).j_thr; have hg8_ := ($h).j_thr0; have hg9_ := ($h).j_thrw; have hg10_ := ($h).z_det; have hg11_ := ($h).z_cur; have hg12_ := ($h).z_touch; have hg13_ := ($h).d_exit; have hg14_ := ($h).t_worker; have hg15_ := ($h).t_ret; have hg16_ := ($h).t_script; have hg17_ := ($h).wf_nt; inv_grind) | (have hh_ := $h; cases hh_; inv_grind)))
+  case' s_thr_tmp => (have hf_ := ($h).s_thr_tmp; inv_simp; try (first | exact hf_ | inv_grind | (have hg0_ := ($h).n_noexit; have hg1_ := ($h).s_tmp_pc; have hg2_ := ($h).s_tmp_uniq; have hg3_ := ($h).s_jb_head; have hg4_ := ($h).s_tmp_w; have hg5_ := ($h).s_nostuck; have hg6_ := ($h).j_all; have hg7_ := ($h).j_thr; have hg8_ := ($h).j_thr0; have hg9_ := ($h).j_thrw; have hg10_ := ($h).z_det; have hg11_ := ($h).z_cur; have hg12_ := ($h).z_touch; have hg13_ := ($h).d_exit; have hg14_ := ($h).t_worker; have hg15_ := ($h).t_ret; have hg16_ := ($h).t_script; have hg17_ := ($h).wf_nt; inv_grind) | (have hh_ := $h; cases hh_; inv_grind)))
+  case' s_jb_head => (have hf_ := ($h).s_jb_head; inv_simp; try (first | exact hf_ | inv_grind | (have hg0_ := ($h).n_noexit; have hg1_ := ($h).s_tmp_pc; have hg2_ := ($h).s_tmp_uniq; have hg3_ := ($h).s_thr_tmp; have hg4_ := ($h).s_tmp_w; have hg5_ := ($h).s_nostuck; have hg6_ := ($h).j_all; have hg7_ := ($h).j_thr; have hg8_ := ($h).j_thr0; have hg9_ := ($h).j_thrw; have hg10_ := ($h).z_det; have hg11_ := ($h).z_cur; have hg12_ := ($h).z_touch; have hg13_ := ($h).d_exit; have hg14_ := ($h).t_worker; have hg15_ := ($h).t_ret; have hg16_ := ($h).t_script; have hg17_ := ($h).wf_nt; inv_grind) | (have hh_ := $h; cases hh_; inv_grind)))
+  case' s_tmp_w => (have hf_ := ($h).s_tmp_w; inv_simp; try (first | exact hf_ | inv_grind | (have hg0_ := ($h).n_noexit; have hg1_ := ($h).s_tmp_pc; have hg2_ := ($h).s_tmp_uniq; have hg3_ := ($h).s_thr_tmp; have hg4_ := ($h).s_jb_head; have hg5_ := ($h).s_nostuck; have hg6_ := ($h).j_all; have hg7_ := ($h).j_thr; have hg8_ := ($h).j_thr0; have hg9_ := ($h).j_thrw; have hg10_ := ($h).z_det; have hg11_ := ($h).z_cur; have hg12_ := ($h).z_touch; have hg13_ := ($h).d_exit; have hg14_ := ($h).t_worker; have hg15_ := ($h).t_ret; have hg16_ := ($h).t_script; have hg17_ := ($h).wf_nt; inv_grind) | (have hh_ := $h; cases hh_; inv_grind)))
+  case' s_nostuck => (have hf_ := ($h).s_nostuck; inv_simp; try (first | exact hf_ | inv_grind | (have hg0_ := ($h).n_noexit; have hg1_ := ($h).s_tmp_pc; have hg2_ := ($h).s_tmp_uniq; have hg3_ := ($h).s_thr_tmp; have hg4_ := ($h).s_jb_head; have hg5_ := ($h).s_tmp_w; have hg6_ := ($h).j_all; have hg7_ := ($h).j_thr; have hg8_ := ($h).j_thr0; have hg9_ := ($h).j_thrw; have hg10_ := ($h).z_det; have hg11_ := ($h).z_cur; have hg12_ := ($h).z_touch; have hg13_ := ($h).d_exit; have hg14_ := ($h).t_worker; have hg15_ := ($h).t_ret; have hg16_ := ($h).t_script; have hg17_ := ($h).wf_nt; inv_grind) | (have hh_ := $h; cases hh_; inv_grind)))
+  case' j_all => (have hf_ := ($h).j_all; inv_simp; try (first | exact hf_ | inv_grind | (have hg0_ := ($h).n_noexit; have hg1_ := ($h).s_tmp_pc; have hg2_ := ($h).s_tmp_uniq; have hg3_ := ($h).s_thr_tmp; have hg4_ := ($h).s_jb_head; have hg5_ := ($h).s_tmp_w; have hg6_ := ($h).s_nostuck; have hg7_ := ($h).j_thr; have hg8_ := ($h).j_thr0; have hg9_ := ($h).j_thrw; have hg10_ := ($h).z_det; have hg11_ := ($h).z_cur; have hg12_ := ($h).z_touch; have hg13_ := ($h).d_exit; have hg14_ := ($h).t_worker; have hg15_ := ($h).t_ret; have hg16_ := ($h).t_script; have hg17_ := ($h).wf_nt; inv_grind) | (have hh_ := $h; cases hh_; inv_grind)))
+  case' j_thr => (have hf_ := ($h).j_thr; inv_simp; try (first | exact hf_ | inv_grind | (have hg0_ := ($h).n_noexit; have hg1_ := ($h).s_tmp_pc; have hg2_ := ($h).s_tmp_uniq; have hg3_ := ($h).s_thr_tmp; have hg4_ := ($h).s_jb_head; have hg5_ := ($h).s_tmp_w; have hg6_ := ($h).s_nostuck; have hg7_ := ($h).j_all; have hg8_ := ($h).j_thr0; have hg9_ := ($h).j_thrw; have hg10_ := ($h).z_det; have hg11_ := ($h).z_cur; have hg12_ := ($h).z_touch; have hg13_ := ($h).d_exit; have hg14_ := ($h).t_worker; have hg15_ := ($h).t_ret; have hg16_ := ($h).t_script; have hg17_ := ($h).wf_nt; inv_grind) | (have hh_ := $h; cases hh_; inv_grind)))
+  case' j_thr0 => (have hf_ := ($h).j_thr0; inv_simp; try (first | exact hf_ | inv_grind | (have hg0_ := ($h).n_noexit; have hg1_ := ($h).s_tmp_pc; have hg2_ := ($h).s_tmp_uniq; have hg3_ := ($h).s_thr_tmp; have hg4_ := ($h).s_jb_head; have hg5_ := ($h).s_tmp_w; have hg6_ := ($h).s_nostuck; have hg7_ := ($h).j_all; have hg8_ := ($h).j_thr; have hg9_ := ($h).j_thrw; have hg10_ := ($h).z_det; have hg11_ := ($h).z_cur; have hg12_ := ($h).z_touch; have hg13_ := ($h).d_exit; have hg14_ := ($h).t_worker; have hg15_ := ($h).t_ret; have hg16_ := ($h).t_script; have hg17_ := ($h).wf_nt; inv_grind) | (have hh_ := $h; cases hh_; inv_grind)))
+  case' j_thrw => (have hf_ := ($h).j_thrw; inv_simp; try (first | exact hf_ | inv_grind | (have hg0_ := ($h).n_noexit; have hg1_ := ($h).s_tmp_pc; have hg2_ := ($h).s_tmp_uniq; have hg3_ := ($h).s_thr_tmp; have hg4_ := ($h).s_jb_head; have hg5_ := ($h).s_tmp_w; have hg6_ := ($h).s_nostuck; have hg7_ := ($h).j_all; have hg8_ := ($h).j_thr; have hg9_ := ($h).j_thr0; have hg10_ := ($h).z_det; have hg11_ := ($h).z_cur; have hg12_ := ($h).z_touch; have hg13_ := ($h).d_exit; have hg14_ := ($h).t_worker; have hg15_ := ($h).t_ret; have hg16_ := ($h).t_script; have hg17_ := ($h).wf_nt; inv_grind) | (have hh_ := $h; cases hh_; inv_grind)))
+  case' z_det => (have hf_ := ($h).z_det; inv_simp; try (first | exact hf_ | inv_grind | (have hg0_ := ($h).n_noexit; have hg1_ := ($h).s_tmp_pc; have hg2_ := ($h).s_tmp_uniq; have hg3_ := ($h).s_thr_tmp; have hg4_ := ($h).s_jb_head; have hg5_ := ($h).s_tmp_w; have hg6_ := ($h).s_nostuck; have hg7_ := ($h).j_all; have hg8_ := ($h).j_thr; have hg9_ := ($h).j_thr0; have hg10_ := ($h).j_thrw; have hg11_ := ($h).z_cur; have hg12_ := ($h).z_touch; have hg13_ := ($h).d_exit; have hg14_ := ($h).t_worker; have hg15_ := ($h).t_ret; have hg16_ := ($h).t_script; have hg17_ := ($h).wf_nt; inv_grind) | (have hh_ := $h; cases hh_; inv_grind)))
+  case' z_cur => (have hf_ := ($h).z_cur; inv_simp; try (first | exact hf_ | inv_grind | (have hg0_ := ($h).n_noexit; have hg1_ := ($h).s_tmp_pc; have hg2_ := ($h).s_tmp_uniq; have hg3_ := ($h).s_thr_tmp; have hg4_ := ($h).s_jb_head; have hg5_ := ($h).s_tmp_w; have hg6_ := ($h).s_nostuck; have hg7_ := ($h).j_all; have hg8_ := ($h).j_thr; have hg9_ := ($h).j_thr0; have hg10_ := ($h).j_thrw; have hg11_ := ($h).z_det; have hg12_ := ($h).z_touch; have hg13_ := ($h).d_exit; have hg14_ := ($h).t_worker; have hg15_ := ($h).t_ret; have hg16_ := ($h).t_script; have hg17_ := ($h).wf_nt; inv_grind) | (have hh_ := $h; cases hh_; inv_grind)))
+  case' z_touch => (have hf_ := ($h).z_touch; inv_simp; try (first | exact hf_ | inv_grind | (have hg0_ := ($h).n_noexit; have hg1_ := ($h).s_tmp_pc; have hg2_ := ($h).s_tmp_uniq; have hg3_ := ($h).s_thr_tmp; have hg4_ := ($h).s_jb_head; have hg5_ := ($h).s_tmp_w; have hg6_ := ($h).s_nostuck; have hg7_ := ($h).j_all; have hg8_ := ($h).j_thr; have hg9_ := ($h).j_thr0; have hg10_ := ($h).j_thrw; have hg11_ := ($h).z_det; have hg12_ := ($h).z_cur; have hg13_ := ($h).d_exit; have hg14_ := ($h).t_worker; have hg15_ := ($h).t_ret; have hg16_ := ($h).t_script; have hg17_ := ($h).wf_nt; inv_grind) | (have hh_ := $h; cases hh_; inv_grind)))
+  case' d_exit => (have hf_ := ($h).d_exit; inv_simp; try (first | exact hf_ | inv_grind | (have hg0_ := ($h).n_noexit; have hg1_ := ($h).s_tmp_pc; have hg2_ := ($h).s_tmp_uniq; have hg3_ := ($h).s_thr_tmp; have hg4_ := ($h).s_jb_head; have hg5_ := ($h).s_tmp_w; have hg6_ := ($h).s_nostuck; have hg7_ := ($h).j_all; have hg8_ := ($h).j_thr; have hg9_ := ($h).j_thr0; have hg10_ := ($h).j_thrw; have hg11_ := ($h).z_det; have hg12_ := ($h).z_cur; have hg13_ := ($h).z_touch; have hg14_ := ($h).t_worker; have hg15_ := ($h).t_ret; have hg16_ := ($h).t_script; have hg17_ := ($h).wf_nt; inv_grind) | (have hh_ := $h; cases hh_; inv_grind)))
   ))
 
 end Cocls.Pool
